@@ -543,6 +543,11 @@ type wdSlot struct {
 // NewWatchdog starts a watchdog over n worker slots; on is called (once) with the
 // descriptor of a case whose running time on the virtual clock exceeded limit.
 func NewWatchdog(n int, limit time.Duration, on func(desc string)) *Watchdog {
+	// The limit a check asks for (20-30 s) is what a spinning call exceeds on an idle machine; on a machine that is
+	// restoring, swapping or shared, an honest heavy case (a 2 GiB allocation, a 10000-level recursion) can take that
+	// long even on the load-aware clock. The watchdog is a safety net for non-termination, not a stopwatch: it waits
+	// fifteen times the nominal limit before it speaks.
+	limit *= watchdogSlack
 	w := &Watchdog{slots: make([]wdSlot, n), limit: limit, on: on}
 	VirtualNow()
 	go func() {
@@ -590,6 +595,9 @@ func NewWatchdog(n int, limit time.Duration, on func(desc string)) *Watchdog {
 	}()
 	return w
 }
+
+// watchdogSlack multiplies every nominal watchdog limit (see NewWatchdog).
+const watchdogSlack = 15
 
 // watchdogNote is appended to the detail of failures recorded after the memory guard fired.
 var watchdogNote string
